@@ -74,7 +74,14 @@ func Add(e Event) {
 		e.Task = -1
 	}
 	l.Events = append(l.Events, e)
+	if OnAdd != nil {
+		OnAdd(&l.Events[len(l.Events)-1])
+	}
 }
+
+// OnAdd, when set, sees every event as it is recorded (the harness uses it to wake a task at
+// the very step at which the supervisor changes a state).
+var OnAdd func(e *Event)
 
 // Hash is the trace hash: everything except payloads that contain addresses.
 func (l *Log) Hash() uint64 {
